@@ -15,9 +15,10 @@ VARIABLE l    \* next line of Trace to consume
 
 tvars == <<vars, l>>
 
-IsEvent(e) == l <= Len(Trace) /\ Trace[l].ev = e /\ l' = l + 1
-
 Has(f) == f \in DOMAIN Trace[l]
+
+(* a recorded panic of the real code matches no action: the trace is rejected at that event *)
+IsEvent(e) == l <= Len(Trace) /\ Trace[l].ev = e /\ ~Has("panic") /\ l' = l + 1
 
 TraceInit ==
     /\ l = 1
